@@ -2,36 +2,25 @@ import LokiModel.Props.C06
 /-!
 # C06 — witnesses of the open findings (statements about *defects of the current code*)
 
-Kept apart from `Props/C06.lean`: when a defect is repaired in /repo the regenerated tables make these statements
-false and this module stops building — that is reported as a note ("finding no longer reproduces in the model"),
-never as a violation.
+Kept apart from `Props/C06.lean`: when a defect is repaired in /repo the regenerated tables / the updated model make these
+statements false and this module stops building — that is reported as a note, never as a violation.
+(The witnesses for `quot-denominator-unparenthesised` and `power-base-power-unparenthesised` were removed when those
+defects were repaired by `fix:` commits, see `known_findings.json`.)
 -/
 namespace LokiModel.C06
 open LokiModel.Expr Tables Tok
 
-/-- the printed text of `a / (b*c)` built without a parenthesis node has a derivation meaning `(a/b)*c`,
-whose value differs from the tree's at `a = 8, b = 2, c = 2` (1 vs 2 … here 8/2*2 = 8 vs 8/(2*2) = 2) -/
-theorem C06_witness_quotDen :
-    let w := E.quot false (.var "a") (.prod false [.var "b", .var "c"])
-    ∃ s, G 0 (printF fcfg w 0) s ∧
-      ∃ env, evalS env s ≠ evalS env (den w) := by
-  refine ⟨.mul (.div (.var "a") (.var "b")) (.var "c"), ?_, ?_⟩
-  · have h : G 5 ([Tok.id "a"] ++ [slash] ++ [Tok.id "b"] ++ [star] ++ [Tok.id "c"]) (.mul (.div (.var "a") (.var "b")) (.var "c")) :=
-      G.mul (G.div ((G.ident "a").weaken (ℓ := 5) (by omega) (by omega)) ((G.ident "b").weaken (ℓ := 6) (by omega) (by omega)))
+/-- class `product-factor-quotient-unparenthesised`: `a * (b / c)` built without a parenthesis node prints as `a*b / c`,
+which has a derivation meaning `(a*b)/c`; the values differ under integer division at a = 3, b = 1, c = 2 (1 vs 0) -/
+theorem C06_witness_prodQuot :
+    let w := E.prod false [.var "a", .quot false (.var "b") (.var "c")]
+    ∃ s, G 0 (printF fcfg w 0) s ∧ ∃ env, evalS env s ≠ evalS env (den w) := by
+  refine ⟨.div (.mul (.var "a") (.var "b")) (.var "c"), ?_, ?_⟩
+  · have h : G 5 ([Tok.id "a"] ++ [star] ++ [Tok.id "b"] ++ [slash] ++ [Tok.id "c"]) (.div (.mul (.var "a") (.var "b")) (.var "c")) :=
+      G.div (G.mul ((G.ident "a").weaken (ℓ := 5) (by omega) (by omega)) ((G.ident "b").weaken (ℓ := 6) (by omega) (by omega)))
         ((G.ident "c").weaken (ℓ := 6) (by omega) (by omega))
     exact h.weaken (ℓ := 0) (by omega) (by omega)
-  · refine ⟨⟨fun x => if x = "a" then some (.int 8) else some (.int 2), fun _ => 0⟩, ?_⟩
-    decide
-
-/-- `(a**b)**c` built without a parenthesis node prints as `a**b**c`, which means `a**(b**c)` -/
-theorem C06_witness_powBase :
-    let w := E.pow false (.pow false (.var "a") (.var "b")) (.var "c")
-    ∃ s, G 0 (printF fcfg w 0) s ∧ ∃ env, evalS env s ≠ evalS env (den w) := by
-  refine ⟨.pow (.var "a") (.pow (.var "b") (.var "c")), ?_, ?_⟩
-  · have h : G 6 ([Tok.id "a"] ++ [Tok.pow] ++ ([Tok.id "b"] ++ [Tok.pow] ++ [Tok.id "c"])) (.pow (.var "a") (.pow (.var "b") (.var "c"))) :=
-      G.pow (G.ident "a") (G.pow (G.ident "b") ((G.ident "c").weaken (ℓ := 6) (by omega) (by omega)))
-    exact h.weaken (ℓ := 0) (by omega) (by omega)
-  · refine ⟨⟨fun x => if x = "a" then some (.int 2) else if x = "b" then some (.int 3) else some (.int 2), fun _ => 0⟩, ?_⟩
+  · refine ⟨⟨fun x => if x = "a" then some (.int 3) else if x = "b" then some (.int 1) else some (.int 2), fun _ => 0⟩, ?_⟩
     decide
 
 end LokiModel.C06
